@@ -77,6 +77,28 @@ async fn case(addr: SocketAddr, certs: &Certs, kind: &str, outages: usize, attem
                 out.push(res);
             }
         }
+        "subone" => {
+            // like "sub", but after every recovery exactly ONE message is published, with nothing behind it that could
+            // push it out: it must arrive on its own
+            let topic = format!("/verif/rec{n}");
+            let mut sub = flaky.subscriber(&topic).with_decoder(StringCodec).open().await?;
+            tokio::time::sleep(Duration::from_millis(40)).await;
+            let mut publ = stable.publisher(&topic).with_encoder(StringCodec).open().await?;
+            for k in 0..outages {
+                flaky.verif_close_connection().await;
+                // polling the subscriber is what makes it notice the loss and register again
+                let idle = tokio::time::timeout(Duration::from_millis(800), sub.next()).await;
+                if let Ok(Some(Err(e))) = idle { out.push(errname(&e)); break; }
+                publ.send(format!("only{k}")).await?;
+                out.push(match tokio::time::timeout(Duration::from_millis(2500), sub.next()).await {
+                    Ok(Some(Ok(s))) if s == format!("only{k}") => "ok".to_string(),
+                    Ok(Some(Ok(s))) => format!("wrong:{s}"),
+                    Ok(Some(Err(e))) => errname(&e),
+                    Ok(None) => "ended".into(),
+                    Err(_) => "lost".into(),
+                });
+            }
+        }
         "replier" => {
             let topic = format!("/verif/recr{n}");
             let f2 = flaky.clone();
@@ -289,6 +311,7 @@ pub fn run(cfg: &Cfg) {
         cases.push("rec displaced 3".into());
         cases.push("rec displaced 0".into());
         cases.push("rec takeover 40".into());
+        cases.push("rec subone 3 2".into());
         cases.push("rec quiet 3 1".into());
         cases.push("rec quiet 5 2".into());
         cases.push("rec exhaust sub 0".into());
